@@ -12,7 +12,7 @@ outside the 20 properties, or a gap in a check).
 """
 import argparse, hashlib, json, os, random, shutil, subprocess, sys, tempfile, time
 
-V = '/verif'
+V = os.path.dirname(os.path.dirname(os.path.abspath(__file__)))
 ENV = dict(os.environ, GOFLAGS='-mod=mod', GOPROXY='off')
 MAP = {
     'storage/memory/memory.go': ['C02', 'C01', 'C09', 'C07'],
@@ -51,13 +51,17 @@ def main():
     ap.add_argument('--seed', type=int, default=1)
     ap.add_argument('--files', default='')
     ap.add_argument('--out', default=os.path.join(V, 'mutants', 'CAMPAIGN.jsonl'))
+    ap.add_argument('--shard', default='0/1', help='i/n: take every n-th mutant of the sampled list, starting at i')
+    ap.add_argument('--done', default='', help='comma separated result files whose mutants are skipped')
     a = ap.parse_args()
     files = [f for f in a.files.split(',') if f] or list(MAP)
     rc, _ = sh(['go', 'build', '-o', os.path.join(V, '.work', 'gomutate'), './cmd/gomutate'], cwd=os.path.join(V, 'harness'))
     assert rc == 0
     done = set()
-    if os.path.exists(a.out):
-        for l in open(a.out):
+    for f in [a.out] + [x for x in a.done.split(',') if x]:
+        if not os.path.exists(f):
+            continue
+        for l in open(f):
             try:
                 d = json.loads(l)
                 done.add((d['file'], d['start'], d['repl']))
@@ -74,6 +78,8 @@ def main():
             ms = json.loads(out)
             rng.shuffle(ms)
             todo += [m for m in ms if (m['file'], m['start'], m['repl']) not in done][:a.per_file]
+        si, sn = [int(x) for x in a.shard.split('/')]
+        todo = [m for k, m in enumerate(todo) if k % sn == si]
         for i, m in enumerate(todo):
             path = os.path.join(W, m['file'])
             src = open(os.path.join('/repo', m['file']), 'rb').read()
